@@ -245,6 +245,15 @@ def probe_mixed_blocks(ctx, nsgenv, WL, WR):
 
 
 def replay(ctx, payload):
+    if payload.get("kind") == "dynamic_join_probe":
+        from props import dynprobe
+        c2 = CK.Ctx("C13", "quick", 1)
+        dynprobe.run(c2, "C13")
+        for v in c2.violations:
+            print(v["what"])
+        if c2.violations:
+            print("VIOLATION property=C13 replay=(this file)")
+        return 1 if c2.violations else 0
     if payload.get("kind") == "mixed_blocks":
         nsgenv, WL, WR = WC._imports()
         c2 = CK.Ctx("C13", "quick", 1)
